@@ -28,6 +28,7 @@ import DiskfsModel.Proofs.Ext4Alloc
 import DiskfsModel.Proofs.Ext4AllocSlow
 import DiskfsModel.Proofs.Ext4Mkfs
 import DiskfsModel.Proofs.Ext4Links
+import DiskfsModel.Proofs.Ext4Own
 import DiskfsModel.Proofs.Ext4DirGrow
 namespace Diskfs.Ext4.C05
 open Diskfs.Ext4 Diskfs.Ext4.Alloc Diskfs.Ext4.Mkfs
@@ -435,3 +436,64 @@ theorem cex_ext4_dir_relocate_leak :
   DirGrow.cex_ext4_dir_relocate_leak
 
 end Diskfs.Ext4.C05
+
+/-! ### ownership: which file owns which marked block (Model/Ext4/Own.lean; deep5-ext4w)
+
+  The guards of `remove_restores_inv` / `dealloc_restores_inv` ("the blocks are marked, pairwise distinct") are what
+  the code does not check - it trusts the inode. The ownership layer turns them into consequences of an invariant
+  that every operation keeps: each file owns a list of blocks (its data blocks AND the node blocks of its extent
+  tree: the `metaBlocks` extendExtentTree takes from the allocator, `exttree_history_inv` in Props/C04), grows by
+  the blocks of one allocateExtents answer at a time, and Remove releases exactly what it owns. -/
+namespace Diskfs.Ext4.C05
+open Diskfs.Ext4 Diskfs.Ext4.Alloc
+
+/-- ownership_inv: create, a file growing by the blocks allocateExtents answered with (data blocks of a write, node
+    blocks of the file's extent tree), Remove - carried out or refused, for every policy answer the machine accepts -
+    keep `counters = bitmaps` AND ownership: no block belongs to two files (or twice to one), every owned block is
+    marked in the block bitmaps, and every file's i_blocks counts exactly the blocks it owns (data + tree nodes) -/
+theorem ownership_inv (geo : Geom) (o : Own) (op : OOp) (h : OwnInv geo o) : OwnInv geo (ostep geo o op) :=
+  own_inv geo o op h
+
+/-- ... along every history of create / grow / remove -/
+theorem ownership_inv_history (geo : Geom) (ops : List OOp) (o : Own) (h : OwnInv geo o) :
+    OwnInv geo (ops.foldl (ostep geo) o) :=
+  own_inv_history geo ops o h
+
+/-- remove_guard_from_ownership: under the ownership invariant the block guard of the machine's Remove always
+    passes - a Remove is refused only when the inode itself is not marked - and it gives back exactly the file's
+    i_blocks: the superblock's free-block counter goes up by i_blocks (data blocks and extent-tree blocks alike) -/
+theorem remove_guard_from_ownership (geo : Geom) (o : Own) (i : Nat) (f : FileRec) (isDir : Bool) (h : OwnInv geo o)
+    (hf : o.files[i]? = some f) (hi : inodeMarked geo o.acc f.ino = true) :
+    removeOp geo o.acc f.ino f.blocks isDir = .ok (removeInode true geo o.acc f.ino f.blocks 0 isDir) ∧
+    (removeInode true geo o.acc f.ino f.blocks 0 isDir).sbFreeBlocks = o.acc.sbFreeBlocks + f.iblocks :=
+  remove_accepted geo o i f isDir h hf hi
+
+/-- remove_frees_only_own_blocks: Remove of a file that owns its blocks (pairwise distinct, each marked - now a
+    per-block condition, not the threaded guard) keeps `counters = bitmaps`, frees exactly these blocks and leaves
+    the state of EVERY other block as it was, so every other file still owns what it owned -/
+theorem remove_frees_only_own_blocks (geo : Geom) (s : Acc) (ino : Nat) (blocks : List Nat) (isDir : Bool)
+    (h : AccInv s) (hnd : blocks.Nodup) (hm : ∀ b ∈ blocks, blockMarked geo s b = true)
+    (hi : inodeMarked geo s ino = true) :
+    removeOp geo s ino blocks isDir = .ok (removeInode true geo s ino blocks 0 isDir) ∧
+    AccInv (removeInode true geo s ino blocks 0 isDir) ∧
+    (removeInode true geo s ino blocks 0 isDir).sbFreeBlocks = s.sbFreeBlocks + blocks.length ∧
+    (∀ b ∈ blocks, blockMarked geo (removeInode true geo s ino blocks 0 isDir) b = false) ∧
+    (∀ b', b' ∉ blocks → blockMarked geo (removeInode true geo s ino blocks 0 isDir) b' = blockMarked geo s b') :=
+  removeOp_owned geo s ino blocks isDir h hnd hm hi
+
+/-- non-vacuity: the witness volume of `cex_ext4_remove_accounting` (one group of 8 blocks, firstDataBlock 1) with
+    inode 3 owning blocks 4 and 5 has the ownership invariant; the file grows by one data block and one tree block
+    (two allocateExtents answers: bits 5 and 6 = blocks 6 and 7) and is removed again: all four blocks come back -/
+def oState : Own := ⟨wState, [⟨3, [4, 5], 2⟩]⟩
+example : OwnInv wGeo oState := by decide
+example : ostep wGeo (ostep wGeo oState (.grow 0 1 [(0, 5, 1)])) (.grow 0 1 [(0, 6, 1)]) =
+    ⟨⟨[{ bbm := [true, true, true, true, true, true, true, false],
+         ibm := [true, true, true, false, false, false, false, false],
+         freeBlocks := 1, freeInodes := 5, usedDirs := 1 }], 1, 5⟩, [⟨3, [4, 5, 6, 7], 4⟩]⟩ := by decide
+example : (ostep wGeo (ostep wGeo (ostep wGeo oState (.grow 0 1 [(0, 5, 1)])) (.grow 0 1 [(0, 6, 1)])) (.remove 0 false)) =
+    ⟨⟨[{ bbm := [true, true, true, false, false, false, false, false],
+         ibm := [true, true, false, false, false, false, false, false],
+         freeBlocks := 5, freeInodes := 6, usedDirs := 1 }], 5, 6⟩, []⟩ := by decide
+
+end Diskfs.Ext4.C05
+
